@@ -19,7 +19,7 @@ def gen_history(r, quick, ids):
     pre = list(X.SEED2)
     level = {}
     for u in range(users):
-        lv = r.choice([10**13, 10**13, fb + 5, fb, max(fb - 1, 1), max(fn, 1), 1])
+        lv = r.choice([10**13, 10**13, fb + 5, fb, max(fb - 1, 0), fn, 1, 0])
         level["u:%d" % u] = lv
         pre.append({"op": "fund", "acct": "u:%d" % u, "amt": str(lv)})
     rich = [u for u, lv in level.items() if lv >= 10**13] or ["a:0"]
@@ -231,7 +231,7 @@ def run(ctx):
     ids = X.Ids()
     if ctx.model_ok:
         items = corpus_histories(ids)
-        n = 70 if ctx.quick else 2000
+        n = 160 if ctx.quick else 2500
         items += [gen_history(ctx.rng, ctx.quick, ids) for _ in range(n)]
         outs, e = X.run_histories(exe, [to_history(g) for g in items])
         if outs is None:
